@@ -67,7 +67,7 @@ NoCall == [op |-> "none"]
 Ev(op, args, t, a, r) ==
   [op |-> op, args |-> args, pre |-> t, arg |-> a, st |-> r.st,
    pe |-> r.st \in {"ArgumentError", "CollisionError", "OutOfBounds", "TextgridStateError", "SafeZipException", "WrongOption"},
-   ret |-> r.ret, post |-> r.post, argpost |-> a, out |-> r.out, arith |-> TRUE, exactfp |-> TRUE]
+   ret |-> r.ret, post |-> r.post, argpost |-> a, out |-> r.out, alias |-> FALSE, arith |-> TRUE, exactfp |-> TRUE]
 
 Init == /\ recv \in MySlice
         /\ arg \in (IF NeedArg THEN Universe \cup {NoTier} ELSE {NoTier})
